@@ -79,6 +79,6 @@ Definition chk (c : c8_case) : bool :=
 Fixpoint mism_from (n : N) (cases : list c8_case) : list N :=
   match cases with
   | [] => []
-  | c :: r => if AnaCross.ana_cross (c8_prog c) (c8_ana c) && chk c then mism_from (N.succ n) r else n :: mism_from (N.succ n) r
+  | c :: r => if AnaCross.ana_cross_e (c8_prog c) (c8_enums c) (c8_ana c) && chk c then mism_from (N.succ n) r else n :: mism_from (N.succ n) r
   end.
 Definition mismatches := mism_from 0%N.
